@@ -235,6 +235,10 @@ def enum_units(tier, seed):
                     wrap = [{"k": "macro", "n": "m_w", "ps": [], "b": body}, {"k": "call", "n": "m_w", "args": []}]
                 for org in (0x008000, 0x128000):
                     cases.append({"rom": "low", "files": {}, "ir": [{"k": "org", "a": org}, outer] + wrap + sp("lb_end")})
+                # ... with the two scopes in banks of different operand width (the outer one's address fits two bytes, the nearer
+                # one's needs three, and the other way round): sized with one and emitted with the other shifts every later label
+                for org_o, org_w in ((0x008000, 0x018000), (0x018000, 0x008000)):
+                    cases.append({"rom": "low", "files": {}, "ir": [{"k": "org", "a": org_o}, outer, {"k": "org", "a": org_w}] + wrap + sp("lb_end")})
     return {"units": [{"cases": cases}], "exhaustive": False}
 
 
